@@ -68,6 +68,13 @@ func wrapTexts(seed int64, n int) []string {
 	for _, ws := range []string{"", " ", "\n", "\r\n", "\t", "\r", "\n \r\n\t", "\v", "\f", "\u00a0"} {
 		out = append(out, "<mj-text>"+ws+"<![CDATA[x<br/>]]>"+ws+"</mj-text"+ws+">", "<mj-text a='b'"+ws+">"+ws+"<![cdata[x]]></MJ-TEXT"+ws+">tail<mj-text"+ws+"/>")
 	}
+	// content that STARTS with a CDATA section and goes on (since cb901ef the author's sections are kept and every stretch
+	// between and behind them gets a section of its own): one and several sections, stretches with escapes / markup / the
+	// terminator itself / void tags, an unterminated section, a section opener in upper and lower case, nothing behind
+	for _, c := range []string{"<![CDATA[a]]> &amp; b", "<![CDATA[a]]>b<![CDATA[c]]>d", " \n<![CDATA[a]]>\n", "<![CDATA[a]]> ]]> <br/> x", "<![CDATA[a]]><![CDATA[b]]>", "<![CDATA[a]]> &lt;u&gt; <![CDATA[<b>",
+		"<![CDATA[a]]> x ]] > y ]]", "<![CDATA[]]>x", "<![CDATA[a]]>x<![cdata[y]]>", "<![CDATA[a<br/>]]><br/><![CDATA[]]]]>]", "<![CDATA[a", "<![CDATA[a]]", "<![CDATA[a]]>\xff<![CDATA[", "<![CDATA[a]]>]]><![CDATA[b]]>"} {
+		out = append(out, "<mj-text>"+c+"</mj-text>", "<mj-body><mj-text css-class=\"k\">"+c+"</mj-text\n><mj-text>plain</mj-text></mj-body>")
+	}
 	// every entity the markup-only replacement knows, first inside material it must not touch (a comment, an author-written
 	// CDATA section), then in markup; markup first; both around — a scan that keeps a position across the skipped
 	// material must find the later occurrences
